@@ -275,8 +275,9 @@ def main(argv):
     }
     if coqchk_note:
         coverage["coqchk"] = coqchk_note
-    write_evidence(prop, tier, seed, coverage, time.time() - t0, violations,
-                   list(getattr(mod, "ASSUMPTIONS", [])) + ctx.notes)
+    if not replay_file:
+      write_evidence(prop, tier, seed, coverage, time.time() - t0, violations,
+                     list(getattr(mod, "ASSUMPTIONS", [])) + ctx.notes)
     for l in out_lines:
         print(l)
     print(f"{prop} {tier}: theorems {discharged}/{len(theorems)} cases {len(verdicts)} "
